@@ -189,6 +189,10 @@ def ref_strip(R, ignore):
     return out
 
 
+PIN_FAMILIES = [("se", "reset", "d", "q", "qn"), ("d", "rd", "d0", "d01", "q"), ("en", "clk_en", "clk", "q", "q_n"),
+                ("a", "a1", "ba", "y", "y_b"), ("i", "si", "in", "o", "so")]
+
+
 def gen_child(rng, idx, allow_nested):
     net = G.gen_net(rng, n_inputs=(1, 3), n_gates=(1, 5), types=G.swarm_types(rng), max_arity=3, constants=0.15,
                     bbs=(1, 2) if (allow_nested and rng.random() < 0.35) else 0, input_outputs=0.0, min_outputs=1,
@@ -213,6 +217,15 @@ def gen_child(rng, idx, allow_nested):
             mp[n] = f"{'i' if net['nodes'][n][0] == 'input' else 'n'}{i}"
             i += 1
     inst_map = {inst: f"k{j}" for j, inst in enumerate(net["bbs"])}
+    if rng.random() < 0.35:
+        # pin-name families as cell libraries have them: one pin name is contained in another (d/rd/d0, se/reset,
+        # q/qn, en/clk_en), so matching a pin by anything weaker than equality picks up a neighbour
+        fam = list(rng.choice(PIN_FAMILIES))
+        rng.shuffle(fam)
+        io = [n for n in net["nodes"] if "." not in n and (net["nodes"][n][0] == "input" or net["nodes"][n][2])]
+        rng.shuffle(io)
+        for n, p in zip(io, fam):
+            mp[n] = p
     net = G.rename(net, mp)
     if inst_map:
         nodes = {}
